@@ -32,6 +32,10 @@ pub struct Cfg {
     pub blob: Option<(u32, u64)>, // (separation threshold, blob file target size)
     pub nkeys: usize,
     pub key_seed: u64,
+    /// 0 = no compression, 1 = lz4 data blocks (+ blobs), 2 = lz4 data + index blocks (+ blobs)
+    pub compress: u8,
+    /// Config::expect_point_read_hits
+    pub hits: bool,
     /// one byte appended to every written value (0 = none): trees of a shared-cache group write values of equal length but different bytes
     pub salt: u8,
 }
@@ -164,11 +168,11 @@ impl Case {
     pub fn show(&self) -> String {
         let c = &self.cfg;
         let mut s = format!(
-            "cfg block_size={} restart={} hash_ratio={} part_index={} part_filter={} pin={} bloom={} cache_kb={} fd_cap={} filter_seed={} blob={} nkeys={} key_seed={} salt={}\n",
+            "cfg block_size={} restart={} hash_ratio={} part_index={} part_filter={} pin={} bloom={} cache_kb={} fd_cap={} filter_seed={} blob={} nkeys={} key_seed={} salt={} compress={} hits={}\n",
             c.block_size, c.restart, c.hash_ratio, u8::from(c.part_index), u8::from(c.part_filter), u8::from(c.pin), c.bloom, c.cache_kb, c.fd_cap,
             c.filter_seed.map_or("-".into(), |x| x.to_string()),
             c.blob.map_or("-".into(), |(t, f)| format!("{t}:{f}")),
-            c.nkeys, c.key_seed, c.salt
+            c.nkeys, c.key_seed, c.salt, c.compress, u8::from(c.hits)
         );
         for o in &self.ops {
             s.push_str(&o.show());
@@ -200,6 +204,8 @@ impl Case {
             nkeys: g("nkeys").parse().ok()?,
             key_seed: g("key_seed").parse().ok()?,
             salt: g("salt").parse().unwrap_or(0),
+            compress: g("compress").parse().unwrap_or(0),
+            hits: g("hits") == "1",
         };
         let ops = lines.map(Op::parse).collect::<Option<Vec<_>>>()?;
         Some(Case { cfg, ops })
@@ -269,6 +275,8 @@ pub fn gen_case(rng: &mut Rng, profile: Profile, blob: bool, max_ops: u64) -> Ca
         nkeys,
         key_seed: rng.next() % 1_000_000,
         salt: 0,
+        compress: *rng.pick(&[0u8, 0, 1, 2]),
+        hits: rng.chance(1, 4),
     };
     let n = 10 + rng.below(max_ops.max(11) - 10);
     let mut ops = vec![];
@@ -499,7 +507,15 @@ fn open_tree(c: &Ctx0) -> AnyTree {
             _ => FilterPolicy::all(FilterPolicyEntry::Bloom(lsm_tree::config::BloomConstructionPolicy::FalsePositiveRate(0.01))),
         })
         .use_cache(c.cache.clone())
-        .use_descriptor_table(c.fds.clone());
+        .use_descriptor_table(c.fds.clone())
+        .expect_point_read_hits(cfg.hits);
+    let lz4 = lsm_tree::CompressionType::Lz4;
+    if cfg.compress >= 1 {
+        conf = conf.data_block_compression_policy(lsm_tree::config::CompressionPolicy::all(lz4));
+    }
+    if cfg.compress >= 2 {
+        conf = conf.index_block_compression_policy(lsm_tree::config::CompressionPolicy::all(lz4));
+    }
     if let Some((th, fsz)) = cfg.blob {
         conf = conf.with_kv_separation(Some(
             lsm_tree::KvSeparationOptions::default()
@@ -507,7 +523,7 @@ fn open_tree(c: &Ctx0) -> AnyTree {
                 .file_target_size(fsz)
                 .staleness_threshold(0.3)
                 .age_cutoff(1.0)
-                .compression(lsm_tree::CompressionType::None),
+                .compression(if cfg.compress >= 1 { lz4 } else { lsm_tree::CompressionType::None }),
         ));
     }
     if let Some(seed) = cfg.filter_seed {
@@ -1808,6 +1824,7 @@ pub fn shared_cache_campaign(seed: u64, cases: u64, max_ops: u64, k: usize, st: 
         let cache = Arc::new(lsm_tree::Cache::with_capacity_bytes(*rng.pick(&[0u64, 1024, 64 * 1024, 8 * 1024 * 1024])));
         let fds = match rng.below(3) { 0 => None, 1 => Some(Arc::new(lsm_tree::DescriptorTable::new(1))), _ => Some(Arc::new(lsm_tree::DescriptorTable::new(3))) };
         let all_blob = rng.chance(1, 2);
+        let group_compress = *rng.pick(&[0u8, 0, 1]);
         let mut variants = vec![];
         for i in 0..k {
             let mut c = base.clone();
@@ -1820,6 +1837,9 @@ pub fn shared_cache_campaign(seed: u64, cases: u64, max_ops: u64, k: usize, st: 
             c.cfg.bloom = rng.below(3) as u8;
             c.cfg.blob = if all_blob { Some((8, 64)) } else if i % 2 == 1 && rng.chance(1, 2) { Some((8, 64)) } else { None };
             c.cfg.salt = b'a' + i as u8;
+            // compression differs from tree to tree, except in all-blob groups (blob offsets must coincide there)
+            c.cfg.compress = if all_blob { group_compress } else { *rng.pick(&[0u8, 1, 2]) };
+            c.cfg.hits = rng.chance(1, 3);
             variants.push(c);
         }
         let outcomes: Vec<(Case, Outcome)> = std::thread::scope(|sc| {
